@@ -116,28 +116,45 @@ func spin(n int) int {
 // be the same afterwards.
 func phaseA(c *core.Ctx, kind string) {
 	r := c.R
-	d := newDynRandom(c, kind, false)
-	d.build(c, r.Range(0, 40))
-	if r.Chance(1, 8) {
-		c.Begin(kind, "Clear")
-		d.C.Clear()
+	// Two identical containers are built by the same history: the twin gives
+	// the sequential answers and the reference fingerprint; the container
+	// under test is not read at all before the concurrent phase.
+	seed := r.U64()
+	mk := func() *Dyn {
+		c.R = core.NewR(seed)
+		defer func() { c.R = r }()
+		x := newDynRandom(c, kind, false)
+		x.build(c, c.R.Range(0, 40))
+		if c.R.Chance(1, 8) {
+			c.Begin(kind, "Clear")
+			x.C.Clear()
+		}
+		return x
 	}
-	fp := func() (Obs, []any, string) {
-		o := d.Observe(true)
+	d := mk()
+	c.Note("the same history again, on the twin that answers sequentially")
+	twin := mk()
+	fp := func(x *Dyn) (Obs, []any, string) {
+		o := x.Observe(true)
 		var w []any
-		if d.Walk != nil {
-			w = d.Walk()
+		if x.Walk != nil {
+			w = x.Walk()
 		}
 		s := ""
-		if d.Ordered {
-			s = d.C.String() // trees: renders the exported structure
+		if x.Ordered {
+			s = x.C.String() // trees: renders the exported structure
 		}
 		return o, w, s
 	}
-	o1, w1, s1 := fp()
+	o1, w1, s1 := fp(twin)
+	catT := twin.Reads()
 	cat := d.Reads()
-	if len(cat) == 0 {
-		c.Fail("harness", "", "empty read catalogue for %s", kind)
+	if len(cat) == 0 || len(cat) != len(catT) {
+		c.Fail("harness", "", "read catalogues of %s and its twin differ (%d vs %d)", kind, len(cat), len(catT))
+	}
+	answers := make([]any, len(catT))
+	for i := range catT {
+		answers[i] = catT[i].Do()
 	}
 	G := []int{2, 4, 8, 16, 32}[r.Intn(5)]
 	rounds := 2
@@ -167,7 +184,7 @@ func phaseA(c *core.Ctx, kind string) {
 			for rd := 0; rd < rounds; rd++ {
 				for _, i := range pr.Perm(len(cat)) {
 					t1 := int64(time.Since(t0))
-					ok := cat[i].Run()
+					ok := cat[i].Eq(cat[i].Do(), answers[i])
 					t2 := int64(time.Since(t0))
 					mine = append(mine, opLog{i, t1, t2})
 					if !ok && wrong < 0 {
@@ -194,9 +211,9 @@ func phaseA(c *core.Ctx, kind string) {
 			c.Fail("concurrent-answer", cat[bad[g]].Name, "%s: read-only operation %s returned a different answer when called concurrently by %d goroutines than sequentially", kind, cat[bad[g]].Name, G)
 		}
 	}
-	o2, w2, s2 := fp()
+	o2, w2, s2 := fp(d)
 	if diff := o1.Diff(o2); diff != "" || !sameWalk(w1, w2) || s1 != s2 {
-		c.Fail("state-changed", "", "%s: the container's state differs after a phase of read-only calls: %s", kind, diff)
+		c.Fail("state-changed", "", "%s: after a phase of read-only calls the container's state differs from that of its untouched twin: %s", kind, diff)
 	}
 	for _, blk := range newRaceReports(raceBefore) {
 		sig, lib := raceSignature(blk)
